@@ -82,6 +82,8 @@ def run(ck):
     ck.rule("C09.R7", "a None layer is transparent for the max-level hint, also after it was swapped in by a reload (as C08.R7)", floor=1)
     ck.rule("C09.R6", "reload::Subscriber takes its lock with a blocking read on every call and forwards under it (as C12.R3)", floor=20)
     ck.rule("C09.R13", "a veto reaches every layer of a Vec: the Vec's published interest never promises more than its `enabled` (= all elements) will allow (as C08.R6)", floor=3)
+    ck.rule("C09.R14", "no layer misses a notification because of per-filter state left over from an earlier emission (bitmap typestate, as C07.R5)", floor=100)
+    ck.rule("C09.R14s", "effect summaries behind C09.R14 (as C07.R5s)", floor=9)
     ck.rule("C09.R5", "Layered::pick_interest asks the inner value on every path except the outer `never` veto", floor=1)
 
     wrapper_rules(ck, F)
@@ -89,6 +91,8 @@ def run(ck):
     check_dispatch_event(ck, F)
     check_pick_interest(ck, F)
     layered_drop_span(ck, F)
+    from rules import C07 as _C07
+    _C07.r5(ck, Facts("release"), rid="C09.R14")
     from rules import C08 as _C08
     _C08.r6(ck, F, rid="C09.R13")
     role_agreement(ck, F)
